@@ -62,7 +62,7 @@ class C12(Prop):
         "inputs lasio cannot read, or cannot write with one of the two configurations, are skipped and counted",
         "data_width is raised to fit the longest formatted field (documented precondition of wrapping)",
     ]
-    quick = {"runs": 1500, "wall": 45}
+    quick = {"runs": 1800, "wall": 60}
     thorough = {"runs": 100000, "wall": 900}
 
     def pred_colon(sc, v, params):
